@@ -59,10 +59,10 @@ type c03Case struct {
 	Reopen bool     `json:"reopen"` // link mode: close, hdf5.Open, Walk at the end
 }
 
-// memFile: io.ReaderAt + io.WriterAt over a byte slice (zero-extends like os.File.WriteAt).
-type memFile struct{ b []byte }
+// c03memFile: io.ReaderAt + io.WriterAt over a byte slice (zero-extends like os.File.WriteAt).
+type c03memFile struct{ b []byte }
 
-func (m *memFile) WriteAt(p []byte, off int64) (int, error) {
+func (m *c03memFile) WriteAt(p []byte, off int64) (int, error) {
 	end := int(off) + len(p)
 	if end > len(m.b) {
 		m.b = append(m.b, make([]byte, end-len(m.b))...)
@@ -71,7 +71,7 @@ func (m *memFile) WriteAt(p []byte, off int64) (int, error) {
 	return len(p), nil
 }
 
-func (m *memFile) ReadAt(p []byte, off int64) (int, error) {
+func (m *c03memFile) ReadAt(p []byte, off int64) (int, error) {
 	if int(off) >= len(m.b) {
 		return 0, io.EOF
 	}
@@ -91,7 +91,7 @@ type c03Step struct {
 func c03Struct(c *c03Case) (interface{}, error) {
 	const heapAddr, snodAddr = 0, 1 << 16
 	sb := &core.Superblock{Version: 2, OffsetSize: 8, LengthSize: 8, Endianness: binary.LittleEndian}
-	f := &memFile{}
+	f := &c03memFile{}
 	heap := structures.NewLocalHeap(c.Cap)
 	node := structures.NewSymbolTableNode(c.SCap)
 	dss := heap.DataSegmentSize
